@@ -134,7 +134,47 @@ def add_logging(tree):
     return tree
 
 
-TRANSFORMS = {'reformat': reformat, 'rename-locals': rename_locals, 'add-logging': add_logging, 'shift-lines': shift_lines}
+class _InvertIf(ast.NodeTransformer):
+    """`if c: A else: B`  ->  `if not c: B else: A`  (only plain if/else, no elif chains)."""
+
+    def visit_If(self, n):
+        self.generic_visit(n)
+        if n.orelse and not (len(n.orelse) == 1 and isinstance(n.orelse[0], ast.If)) \
+                and not (len(n.body) == 1 and isinstance(n.body[0], ast.If) and False):
+            t = n.test
+            if isinstance(t, ast.UnaryOp) and isinstance(t.op, ast.Not):
+                nt = t.operand
+            else:
+                nt = ast.UnaryOp(op=ast.Not(), operand=t)
+            n.test, n.body, n.orelse = nt, n.orelse, n.body
+        return n
+
+
+def invert_if(tree):
+    tree = _InvertIf().visit(tree)
+    ast.fix_missing_locations(tree)
+    return tree
+
+
+class _FlipCompare(ast.NodeTransformer):
+    """a < b -> b > a ; a <= b -> b >= a ; a == b -> b == a (single-operator comparisons only)."""
+    FL = {ast.Lt: ast.Gt, ast.Gt: ast.Lt, ast.LtE: ast.GtE, ast.GtE: ast.LtE, ast.Eq: ast.Eq, ast.NotEq: ast.NotEq}
+
+    def visit_Compare(self, n):
+        self.generic_visit(n)
+        if len(n.ops) == 1 and type(n.ops[0]) in self.FL:
+            n.left, n.comparators = n.comparators[0], [n.left]
+            n.ops = [self.FL[type(n.ops[0])]()]
+        return n
+
+
+def flip_compare(tree):
+    tree = _FlipCompare().visit(tree)
+    ast.fix_missing_locations(tree)
+    return tree
+
+
+TRANSFORMS = {'invert-if': invert_if, 'flip-compare': flip_compare, 'reformat': reformat, 'rename-locals': rename_locals, 'add-logging': add_logging, 'shift-lines': shift_lines}
 
 
 def run(name, keep=False):
